@@ -455,7 +455,7 @@ def gate(ctx, binp, drv):
             broken.append(f"constants Primes{p}")
     ctx.cov["ntt120_constants_compared"] = ["q", "omega", "crt", "logq", "bbc(h,s2l,s2h)", "bbb(h,s1h,s2l..s4h)", "baa(h,h_pow_red)", "ntt reduc(h,mask,cst)", "Q_SHIFTED"]
     # 2. generated cases
-    n_cases = 1700 if quick else 40000
+    n_cases = 3400 if quick else 40000
     cases = [case(rng, quick) for _ in range(n_cases)]
     hist, values = {}, 0
     for off in range(0, len(cases), 4000):
